@@ -31,6 +31,10 @@ RULE = ("a case = a whole operation history on two objects of one flavour: stati
         "one (std::vector<int>, a non-trivial and a trivial record: T(a, b) != T{a, b}, T(x) != T{x}), reference "
         "std::vector<T>::emplace_back(a, b); the reference returned by emplace_back / stack::emplace / unchecked_emplace_back (and the "
         "pointer of try_emplace_back) located among the container's slots and written through; "
+        "the SECOND object of every two-object operation as the call leaves it: move assignment (mvo) and move construction (mco) of "
+        "static_vector / stack / inplace_vector and stack(Container&&) (fro) with nothing done to the source afterwards, for every flavour "
+        "(trivial and non-trivial elements), contents of length 0 / 1 / 2 / full on both sides, followed by appends to / removals from the "
+        "moved-from object and a second two-object operation; "
         "capacities {0,1,2,3,4,8,16,254,255,256} and "
         "{65534,65535,65536}; exhaustive part: every content state of length <= cap <= 3 over values {1,18,35} x every single "
         "operation (58 static_vector, 19 stack, 26 inplace_vector operations of the model) with every position/count/index "
@@ -39,12 +43,16 @@ RULE = ("a case = a whole operation history on two objects of one flavour: stati
 TRUSTED_BASE = ["reference leg: libstdc++ 12 std::vector<int> / std::stack<int, std::vector<int>> driven by the same history "
                 "(reserve()d, so no reallocation effects); the relations of the KeyTag flavours and the source range after a range member are "
                 "computed with std::vector<T> / std::stack<T> of the flavour's own element type, likewise std::erase / std::erase_if with the "
-                "value / parameter type of the call and the element std::vector<T>::emplace_back(a, b) constructs",
+                "value / parameter type of the call and the element std::vector<T>::emplace_back(a, b) constructs; the moved-from object with "
+                "std::vector<T> of the flavour's own T (element-wise move through move_iterator for static_vector / stack; for inplace_vector "
+                "std::vector<T>'s own move for class types - libstdc++ leaves it empty - and a copy for trivially movable T)",
                 "props/C01/pcxx.py (parallel compile wrapper around g++; a harness part that does not compile against the library under test is "
                 "replaced by a stub whose flavours answer `harness-does-not-compile part<k>: <first compiler error>`)"]
 ASSUMPTIONS = ["element values are ints (the non-trivial element types wrap an int, count live instances and check their own identity; "
                "std::string elements are 24-digit decimal strings)",
-               "a moved-from vector/stack is only cleared/assigned/destroyed afterwards (its content is unspecified in std)"]
+               "what a moved-from object holds is the LIBRARY's statement (std::vector's is unspecified): static_vector / stack keep the size with "
+               "moved-from elements, inplace_vector is unchanged for trivially movable T and empty otherwise (SpecMv.v); the older operations "
+               "mva / mvc / ivm / mrt still clear / re-assign the source, mvo / mco / fro leave it as the call leaves it"]
 
 SV_CAPS = [0, 1, 2, 3, 4, 8, 16, 254, 255, 256]
 BIG_CAPS = [65534, 65535, 65536]
@@ -574,7 +582,9 @@ def gen(tier, rng):
         small = [c for c in CAPS[fl] if 1 <= c <= 4]
         big = [c for c in CAPS[fl] if 16 <= c <= 256 and fl not in ("sv_int", "iv_int", "stack")]
         for cap in small[:1] + small[-1:] + ([] if quick else small[1:-1]) + big[-1:]:
-            moved_from_family(out, fl, cap, KT_VALS if fl.endswith("_kt") else vals, rng=rng, keep=(0.35 if quick else 1.0))
+            # (the unary-nat model makes every step at capacity 255 / 256 expensive: a thin sample there)
+            moved_from_family(out, fl, cap, KT_VALS if fl.endswith("_kt") else vals, rng=rng,
+                              keep=((0.02 if quick else 0.2) if cap >= 16 else (0.35 if quick else 1.0)))
     # ---- records ordered by key only (operator< coarser than operator==), the element type for which the six relations
     #      are six different functions: every single operation from every content state (every history ends in `rel`) ...
     exhaustive_single(out, "sv_kt", 2, KT_VALS, full_contents=True, rng=rng, keep=(0.4 if quick else 1.0))
